@@ -150,6 +150,45 @@ def do_read(w, op, o, x=None):
     raise RuntimeError(k)
 
 
+MERGES = []      # (driver request, real items after, description)
+
+def merge_snapshot(w, owner, cname):
+    """(link rows of the owner as the transaction sees them, items / added / removed the session holds) for a many-to-many collection"""
+    try:
+        attr = getattr(type(owner), cname)
+        if not attr.reverse.is_collection or any(sp['pk'] != 'int' for sp in w.schema['ents']): return None
+        sd = owner._vals_.get(attr)
+        if sd is None or sd.is_fully_loaded: return None
+        own = attr.reverse_columns[0] if attr.symmetric else attr.reverse.columns[0]
+        other = attr.columns[0]
+        con = w.db.get_connection()
+        rows = [r[0] for r in con.execute('select "%s" from "%s" where "%s" = ?' % (other, attr.table, own), (owner.id,))]
+        if attr.symmetric: rows += [r[0] for r in con.execute('select "%s" from "%s" where "%s" = ?' % (own, attr.table, other), (owner.id,))]
+        return {'rows': sorted(set(rows)), 'items': sorted(x.id for x in sd), 'added': sorted(x.id for x in (sd.added or ())), 'removed': sorted(x.id for x in (sd.removed or ()))}
+    except Exception:
+        return None
+
+def merge_compare(w, owner, cname, before, op):
+    if before is None: return
+    try:
+        attr = getattr(type(owner), cname)
+        sd = owner._vals_.get(attr)
+        if sd is None or not sd.is_fully_loaded: return          # the sibling was not covered by a batch load
+        MERGES.append((dict(before, op='merge'), sorted(x.id for x in sd), {'op': op, 'strategy': w.strategy, 'before': before}))
+    except Exception: pass
+
+def flush_merges(ctx):
+    if not MERGES or not ctx.driver.ok:
+        del MERGES[:]; return
+    reqs = list(MERGES); del MERGES[:]
+    outs = ctx.driver('C23', [r[0] for r in reqs])
+    for (req, real, d), out in zip(reqs, outs):
+        ctx.count('tie:merge')
+        if 'ok' not in out or sorted(out['ok']) != real or sorted(out['expected']) != real:
+            ctx.divergence('a sibling collection with pending changes after a many-to-many batch load: the real SetData differs from Model.Loading.mergeLinks / expectedItems',
+                           d, model=out, impl=real)
+
+
 def exec_op(w, op):
     """one op on the real code -> canonical observation (value or exception class)"""
     k = op[0]
@@ -221,6 +260,35 @@ def exec_op(w, op):
             S = w.subclasses.get(op[1])
             if S is None: return ['ok', 'no subclass']
             return ['ok', sorted([w.pkof(o), o.x, o.tag] for o in w.q(select(o for o in S if o.tag >= op[2])))]
+        if k == 'batchmod':
+            # a many-to-many batch load triggered with flushing DISABLED while a sibling of the batch has pending changes:
+            # arm the nplus1 heuristic (one full load) -> partial knowledge of one owner (contains) -> unflushed add / remove on a sibling ->
+            # a modifying call on the first owner, which has to load its collection inside flush_disabled() -> observe everybody
+            e, cname, t = op[1], op[2], op[3]
+            g3, g1, g2 = op[4]; s1, s3, s4 = op[5]; sib_act, trig = op[6], op[7]
+            objs = [w.fetch(e, pk) for pk in (g3, g1, g2)] + [w.fetch(t, pk) for pk in (s1, s3, s4)]     # everything is cached first: no query (no flush) later
+            if any(x is None for x in objs): return ['absent']
+            G3, G1, G2, S1, S3, S4 = objs
+            out = []
+            def obs(f):
+                try: out.append(f())
+                except Exception as ex: out.append('exc:' + type(ex).__name__)
+            obs(lambda: sorted(w.pkof(x) for x in getattr(G3, cname)))
+            obs(lambda: S1 in getattr(G1, cname))
+            obs(lambda: getattr(getattr(G2, cname), sib_act)(S3))
+            # the sibling's state right before the trigger; compared only when the trigger itself cannot change the sibling's collection
+            symmetric = getattr(type(G1), cname).symmetric
+            before = merge_snapshot(w, G2, cname) if (trig != 'delete' and G2 not in (S1, S4) and G1 is not S3 and not (symmetric and trig != 'add')) else None
+            if trig == 'add': obs(lambda: getattr(G1, cname).add(S4))
+            elif trig == 'remove': obs(lambda: getattr(G1, cname).remove(S1))
+            elif trig == 'set': obs(lambda: setattr(G1, cname, [S4]))
+            else: obs(lambda: G1.delete())
+            merge_compare(w, G2, cname, before, op)
+            if trig != 'delete': obs(lambda: sorted(w.pkof(x) for x in getattr(G1, cname)))
+            obs(lambda: sorted(w.pkof(x) for x in getattr(G2, cname)))
+            obs(lambda: S3 in getattr(G2, cname))
+            obs(lambda: getattr(G2, cname).count())
+            return ['ok', out]
         if k == 'seedwrite':
             # load-path variants x write-before-read: an object reached through a reference (an unloaded reference unless the strategy loaded it eagerly)
             # gets a plain attribute WRITTEN before anything of it is read; then something loads its row while flushing is disabled:
@@ -396,7 +464,23 @@ def gen_mod(rng, schema):
     kinds = ['set', 'set', 'create', 'delete', 'flush', 'commit', 'rollback']
     if refs[e]: kinds += ['setref', 'setref', 'navsetref', 'seedwrite', 'seedwrite', 'seedwrite']
     if colls[e]: kinds += ['add', 'add', 'remove']
+    m2m = [(name, t) for name, t in colls[e] if any(r['kind'] in ('m2m', 'symm') and name in ('r%da' % i, 'r%db' % i) for i, r in enumerate(schema['rels']))]
+    if m2m: kinds += ['batchmod', 'batchmod', 'batchmod']
     k = rng.choice(kinds)
+    if k == 'batchmod':
+        name, t = rng.choice(m2m)
+        owners = rng.sample(pks_of(schema, e), 3); items = [rng.choice(pks_of(schema, t)) for _ in range(3)]
+        made = POPULATED.get('made', set())
+        eo = [pk_ for pk_ in pks_of(schema, e) if (e, pk_) in made]; et = [pk_ for pk_ in pks_of(schema, t) if (t, pk_) in made]
+        nonempty = [pk_ for pk_ in eo if POPULATED.get((e, pk_, name))]
+        if len(eo) >= 3 and nonempty and et and rng.random() < 0.8:
+            # aimed: g1 has items (so `s1 in g1` leaves a non-empty partial set), s3 is not yet in g2, s4 not yet in g1
+            g1 = rng.choice(nonempty); rest = [x for x in eo if x != g1]; g2, g3 = rng.sample(rest, 2)
+            s1 = rng.choice(sorted(POPULATED[(e, g1, name)]))
+            out2 = [x for x in et if x not in POPULATED.get((e, g2, name), ())] or et
+            out1 = [x for x in et if x not in POPULATED.get((e, g1, name), ())] or et
+            owners = [g3, g1, g2]; items = [s1, rng.choice(out2), rng.choice(out1)]
+        return ['batchmod', e, name, t, owners, items, rng.choice(['add', 'add', 'remove']), rng.choice(['add', 'add', 'remove', 'set', 'delete'])]
     if k == 'seedwrite':
         name, t, req = rng.choice(refs[e])
         scalar = rng.choice(['tag', 'v', 's'])
@@ -440,6 +524,25 @@ def gen_mod(rng, schema):
     return [k]
 
 FRESH = [0]
+POPULATED = {}      # (entity, pk, collection name) -> pks the population put there (what the generator aims its directed ops with)
+
+def note_population(schema, population):
+    POPULATED.clear()
+    rev = {}
+    for i, r in enumerate(schema['rels']):
+        if r['kind'] == 'm2m': rev['r%da' % i] = (r['b'], 'r%db' % i); rev['r%db' % i] = (r['a'], 'r%da' % i)
+        elif r['kind'] == 'symm': rev['r%da' % i] = (r['a'], 'r%da' % i)
+    made = set()
+    for op in population:
+        made.add((op[1], op[2]))
+        for name, ts in op[7]:
+            if name not in rev: continue
+            te, rname = rev[name]
+            for t in ts:
+                if (t[0], t[1]) not in made and (t[0], t[1]) != (op[1], op[2]): continue      # the target did not exist yet: the population skipped it
+                POPULATED.setdefault((op[1], op[2], name), set()).add(t[1])
+                POPULATED.setdefault((te, t[1], rname), set()).add(op[2])
+    POPULATED['made'] = made
 
 def gen_history(rng, schema, n):
     FRESH[0] = 0
@@ -947,6 +1050,7 @@ def run(ctx):
                 if populate(schema, population, base): break
                 ctx.count('population-rejected')
             else: continue
+            note_population(schema, population)
             hist, tail = gen_history(rng, schema, rng.choice([6, 12, 20]))
             try:
                 logs, sel, ties = run_all(ctx, schema, population, hist, tail, base)
@@ -969,6 +1073,7 @@ def run(ctx):
                 if found <= 30 and len(ctx.violations) + len(ctx.known_hits) - base_keys < 5: report(ctx, schema, population, hist, base, d)
         ctx.count('histories', n)
         Tie.flush_pending(ctx)
+        flush_merges(ctx)
     finally:
         ponyutil.rmtree(work)
 
